@@ -33,8 +33,14 @@ use undermoon::common::config::ClusterConfig;
 pub static CLOCK_SECS: AtomicI64 = AtomicI64::new(1_700_000_000);
 pub static INJECTED_MAX_EPOCH: AtomicU64 = AtomicU64::new(u64::MAX);
 
+/// when set, the broker's wall clock follows the simulated (tokio, paused) clock
+pub static SIM_CLOCK_START: parking_lot::Mutex<Option<tokio::time::Instant>> = parking_lot::Mutex::new(None);
+
 fn sim_utc_now() -> DateTime<Utc> {
-    let s = CLOCK_SECS.load(Ordering::SeqCst);
+    let mut s = CLOCK_SECS.load(Ordering::SeqCst);
+    if let Some(t0) = *SIM_CLOCK_START.lock() {
+        s += tokio::time::Instant::now().duration_since(t0).as_secs() as i64;
+    }
     DateTime::<Utc>::from_utc(NaiveDateTime::from_timestamp(s, 0), Utc)
 }
 fn sim_max_epoch() -> Option<u64> {
@@ -1254,6 +1260,7 @@ impl World {
                     continue;
                 }
             };
+            if std::env::var("VERIF_DEBUG").is_ok() { eprintln!("crash point {} snap_epoch {} max_installed {}", k, snap.get_global_epoch(), max_installed); }
             INJECTED_MAX_EPOCH.store(max_installed, Ordering::SeqCst);
             let r = block_on(svc2.recover_epoch());
             INJECTED_MAX_EPOCH.store(u64::MAX, Ordering::SeqCst);
@@ -1263,6 +1270,7 @@ impl World {
             }
             self.rec.fault("broker_crash_restart_from_snapshot");
             let st2 = block_on(svc2.get_all_data()).expect("data");
+            if std::env::var("VERIF_DEBUG").is_ok() { eprintln!("   recovered global epoch {}", st2.get_global_epoch()); }
             let mut addrs: Vec<String> = st2.all_proxies.keys().cloned().collect();
             addrs.sort();
             for a in addrs.iter() {
